@@ -57,6 +57,8 @@ BOUNDS = {
     "active-box": (("lb", 1.5), ("ub", 4)),
     "optimum-outside": (("lb", -5), ("ub", -1)),
     "infeasible-vs-constraint": (("lb", 0), ("ub", 1)),
+    "lower-only-active": (("lb", 2.5),),
+    "upper-only-outside": (("ub", -1),),
 }
 METHODS = ("auto", "SLSQP", "trust-constr", "L-BFGS-B", "TNC", "BFGS", "CG", "Newton-CG", "Nelder-Mead",
            "Powell", "COBYLA", "linprog", "highs")
